@@ -79,7 +79,6 @@ func ruleTLexDump(p *Program, r *Reporter) {
 	}
 }
 
-
 var lexSpec = []string{
 	"'%' => Modulo", "'(' => OpenParen", "')' => CloseParen", "'*' => Asterisk", "'+' => Add", "',' => Comma", "':' => Colon", "'@' => Current",
 	"']' => CloseSqBrace", "'{' => OpenBrace", "'}' => CloseBrace", "'×' => Multiply", "'÷' => Divide", "'−' => Subtract", "'-' => Subtract",
